@@ -208,6 +208,8 @@ class Sim:
         logging.disable(logging.CRITICAL)
 
         p = {"mpf": {"default_platform_hz": 100, "plugins": []}, "bcp": []}
+        if platform == "simhw":
+            p["mpf"]["platforms"] = {"simhw": "sim.platform.SimPlatform"}
         if patches:
             p = Util.dict_merge(p, patches, deepcopy_both=True)
         d = {"playfields": {"playfield": {"tags": "default", "default_source_device": None}}}
@@ -222,6 +224,7 @@ class Sim:
         }
         self.machine = SimMachineController(options, config, self.clock, mock_data or {},
                                             data_manager_factory)
+        self.machine.sim = self
         if pre_boot:
             pre_boot(self)
         self.booted = False
@@ -294,6 +297,11 @@ class Sim:
     @property
     def now(self):
         return self.loop.time()
+
+    @property
+    def hw(self):
+        """The SimPlatform instance (only with platform="simhw")."""
+        return self.machine.hardware_platforms["simhw"]
 
     def late_ok(self, deadline, now=None, tol=1e-9):
         """Is something due at `deadline` and processed `now` on time, or late only because of an injected stall?
